@@ -124,7 +124,16 @@ def run_case(c, rng, sb, order, res, patterns=None, allow_extra_input=True):
     c.sources = {k: list(v) for k, v in src.items()}
     # the input may be spelled relatively (cwd = work); a second input (a lone file) follows in 40% of the runs and may
     # itself be excluded by a pattern
-    spelled = rng.choice([inp, inp, "proj", "./proj", "proj/"])
+    cwd_kind = rng.choice(["parent", "parent", "root", "elsewhere"])
+    if cwd_kind == "root":
+        cwd = inp                 # run from inside the project: every top-level name also exists relative to the cwd
+        spelled = rng.choice([inp, ".", "./"])
+    elif cwd_kind == "elsewhere":
+        cwd = home
+        spelled = inp
+    else:
+        spelled = rng.choice([inp, inp, "proj", "./proj", "proj/"])
+    c.cwd_kind = cwd_kind
     c.extra_input = None
     if allow_extra_input and rng.random() < 0.4 and not c.everything:
         xdir = os.path.join(sb, "work", "extra_in")
